@@ -632,8 +632,8 @@ Lemma add_object_root_inv : forall s ob n s',
 Proof.
   intros s ob n s' HI Hlt Hun Hoc Hop Hon Hmod Hfp Hnew H.
   unfold add_object in H. rewrite Hop, Hmod in H. cbv beta iota in H.
-  assert (Hfp' : fullpath (mkState (store s) (next s) (allobj s) (roots s ++ [ob]) (depthb s)) ob = Some [n]) by exact Hfp.
-  rewrite Hfp' in H. cbn [allobj] in H. rewrite Hnew in H. inversion H; subst s'. clear H Hfp'.
+  unfold fullpath in H. cbn [store depthb] in H. unfold fullpath in Hfp. rewrite Hfp in H.
+  cbn [allobj] in H. rewrite Hnew in H. inversion H; subst s'. clear H. fold (fullpath s ob) in Hfp.
   set (s' := set_allobj _ _).
   assert (Hrget : forall k, rget k (allobj s') = if path_eqb [n] k then Some ob else rget k (allobj s)).
   { intros k. unfold s'. cbn. apply (aget_app_new path_eqb path_eqb_eq). exact Hnew. }
@@ -694,7 +694,7 @@ Proof.
       apply (fullpath_f_child_intro _ (store s1) ob q); [rewrite Hst; reflexivity | exact Hqf]. }
     rewrite Hobp in H. rewrite Ha1 in H.
     destruct (rget (pq ++ [n]) (allobj s)) as [first|] eqn:Ef.
-    + destruct (Hdup pq first Hpq eq_refl) as [Hfc ->].
+    + destruct (Hdup pq first Hpq Ef) as [Hfc ->].
       assert (Hfne : first <> ob) by (intros E; apply Hun; apply Hreg; rewrite <- E; exists (pq ++ [n]); exact Ef).
       rewrite (Hoth first Hfne), Hfc in H. rewrite Hcl in H. cbn in H. inversion H; subst s'. exact HI1.
     + apply (add_object_child_inv s1 ob q n pq s' HI1 Hlt Hun); try (rewrite Hst; reflexivity); try assumption.
@@ -741,4 +741,21 @@ Lemma step_post_process_inv : forall s s', Inv s -> step s PostProcess = Some s'
 Proof.
   intros s s' HI H. cbn in H. inversion H; subst s'. apply (Inv_frame s); cbn; auto; try lia.
   intros o Ho. apply post_fold_core.
+Qed.
+
+(* ------------------------------------------------------------------ I4: the walk up ends in a root object *)
+Lemma root_f_of_fullpath : forall F st o p, fullpath_f F st o = Some p ->
+    exists r, root_f F st o = Some r /\ oparent (st r) = None /\ anc st r o.
+Proof.
+  induction F as [|F IH]; intros st o p H; [discriminate|]. cbn in *.
+  destruct (oparent (st o)) as [q|] eqn:E.
+  - destruct (fullpath_f F st q) as [pq|] eqn:E2; [|discriminate].
+    destruct (IH _ _ _ E2) as [r [H1 [H2 H3]]]. exists r. split; [exact H1 | split; [exact H2 | eapply anc_step; eauto]].
+  - exists o. split; [reflexivity | split; [exact E | apply anc_refl]].
+Qed.
+Lemma inv_root_of : forall s o, Inv s -> reg s o -> exists r, root_of s o = Some r /\ In r (roots s) /\ anc (store s) r o.
+Proof.
+  intros s o HI Ho. destruct (reg_self s HI o Ho) as [p [Hp _]].
+  destruct (root_f_of_fullpath _ _ _ _ Hp) as [r [H1 [H2 H3]]]. exists r. split; [exact H1 | split; [|exact H3]].
+  apply (inv_top s HI); [eapply reg_anc_closed; eauto | exact H2].
 Qed.
